@@ -61,3 +61,9 @@ Lemma render_table_sound_stmt : forall o m max_size request_payload r,
   org_ok o -> WfMsg o m -> mtsig m = None -> to_wire_st m o max_size request_payload false 0 = Ok r ->
   TableSound (out r) (tbl r).
 Proof. intros o m ms rp r OO. exact (render_table_sound_lemma o OO m ms rp r). Qed.
+
+Lemma render_parse_padded_stmt : forall o pad m max_size request_payload w,
+  org_ok o -> WfMsg o m -> wf_tsig m ->
+  to_wire m o max_size request_payload false pad = Ok w ->
+  exists m', from_wire w o po0 = Ok m' /\ msg_equiv_p pad m' m.
+Proof. intros o pad m ms rp w OO. exact (render_parse_pad_lemma o OO pad m ms rp w). Qed.
